@@ -140,9 +140,17 @@ class Path:
         """Branch decisions normalised to (atom term, truth value): `not x` is unfolded,
         `x is None` / `x is not None`, `==`/`!=` are folded to one atom."""
         out = []
-        for t, pol, _ in self.conds:
+        todo = [(t, pol) for t, pol, _ in self.conds]
+        while todo:
+            t, pol = todo.pop(0)
             while isinstance(t, tuple) and t[0] == "unop" and t[1] == "not":
                 t, pol = t[2], not pol
+            if isinstance(t, tuple) and t[0] == "boolop":
+                # (a or b) false => a false, b false ; (a and b) true => a true, b true
+                if (t[1] == "or" and not pol) or (t[1] == "and" and pol):
+                    todo = [(x, pol) for x in t[2]] + todo
+                    out.append((t, pol))
+                    continue
             if isinstance(t, tuple) and t[0] == "compare" and len(t[1]) == 1:
                 op = t[1][0]
                 flip = {"is not": "is", "!=": "==", "not in": "in"}
@@ -155,6 +163,10 @@ class Path:
         """Truth value the path conditions assign to `term` (None if undecided)."""
         while isinstance(term, tuple) and term[0] == "unop" and term[1] == "not":
             v = self.truth(term[2])
+            return None if v is None else not v
+        if isinstance(term, tuple) and term[0] == "compare" and len(term[1]) == 1 and term[1][0] in ("is not", "!=", "not in"):
+            flip = {"is not": "is", "!=": "==", "not in": "in"}
+            v = self.truth(("compare", (flip[term[1][0]],), term[2]))
             return None if v is None else not v
         for t, pol in self.atoms():
             if t == term:
